@@ -91,6 +91,30 @@ func (g *genCfg) smallBytes() []byte {
 	return b
 }
 
+// n bytes: a long run of one byte (printed compactly as a Coq term) with distinct markers at both ends
+func markedBytes(n int) []byte {
+	b := rep('A', n)
+	for i := 0; i < 4 && i < n; i++ {
+		b[i] = byte(n>>(8*i)) ^ byte(0x10+i)
+	}
+	for i := 1; i <= 3 && n-i >= 4; i++ {
+		b[n-i] = byte(0xf0 + i)
+	}
+	return b
+}
+
+// state of a marshaler value: mostly small, sometimes around the 4096-byte capacity of a fresh lib.Buffer
+func (g *genCfg) marshState() []byte {
+	r := g.r
+	switch r.Intn(8) {
+	case 0:
+		return []byte{}
+	case 1:
+		return markedBytes([]int{4080, 4090, 4096, 5000, 9000}[r.Intn(5)])
+	}
+	return g.smallBytes()
+}
+
 var primNames = []string{"PBool", "PInt", "PInt8", "PInt16", "PInt32", "PInt64", "PUint", "PUint8", "PUint16",
 	"PUint32", "PUint64", "PFloat32", "PFloat64", "PString", "PBinary", "PAtom", "PError", "PPid", "PProcessID",
 	"PRef", "PAlias", "PEvent", "PTime"}
@@ -329,6 +353,9 @@ func (g *genCfg) genVal(t *T, depth int, ctx string) *V {
 	case "reg":
 		rt := regByShort[t.Name].Type
 		mt := rt
+		if mt == hmarType || mt == hbinType {
+			return &V{K: "marsh", S: g.marshState()}
+		}
 		switch mt.Kind().String() {
 		case "struct":
 			out := &V{K: "list", L: []*V{}}
@@ -532,6 +559,34 @@ func (g *genCfg) boundaryCases() []Case {
 		bm.M = append(bm.M, [2]*V{{K: "int", I: int64(i) - 100}, {K: "bool", B: i%3 == 0}})
 	}
 	cs = append(cs, Case{Label: "boundary-count", T: &T{K: "map", Key: &T{K: "prim", P: "PInt"}, E: &T{K: "prim", P: "PBool"}}, V: bm})
+	// custom marshalers: payload sizes around the capacity of a fresh lib.Buffer (4096), so that the
+	// buffer is reallocated while MarshalEDF writes (the length prefix is written afterwards)
+	pat := markedBytes
+	mt, bt2, lt := &T{K: "reg", Name: "HMar"}, &T{K: "reg", Name: "HBin"}, &T{K: "reg", Name: "HLate"}
+	for _, n := range []int{0, 1, 2, 4078, 4079, 4080, 4091, 4092, 4093, 4094, 4095, 4096, 4097, 5000, 8192, 70000} {
+		cs = append(cs, Case{Label: "marshaler", T: mt, V: &V{K: "marsh", S: pat(n)}})
+		cs = append(cs, Case{Label: "marshaler", T: bt2, V: &V{K: "marsh", S: pat(n)}})
+	}
+	cs = append(cs, Case{Label: "marshaler", T: mt, V: &V{K: "marsh", S: pat(4090)},
+		Opts: Opts{HasRegCache: true, RegCache: []RegCacheEnt{{Short: "HMar", ID: 4096}}}})
+	late := func(pad, m, b int) *V {
+		return &V{K: "list", L: []*V{{K: "bytes", S: pat(pad)}, {K: "marsh", S: pat(m)}, {K: "bytes", S: []byte("tail")},
+			{K: "marsh", S: pat(b)}, {K: "int", I: -2}}}
+	}
+	for _, pad := range []int{0, 4000, 4050, 4060, 4064, 4065, 4066, 4067, 4068, 4070, 4090, 8100, 8170} {
+		for _, m := range []int{0, 1, 5, 100, 5000} {
+			cs = append(cs, Case{Label: "marshaler-late", T: lt, V: late(pad, m, 3)})
+		}
+	}
+	cs = append(cs, Case{Label: "marshaler-late", T: lt, V: late(10, 10, 5000)})
+	cs = append(cs, Case{Label: "marshaler-nested", T: &T{K: "slice", E: mt},
+		V: &V{K: "list", L: []*V{{K: "marsh", S: pat(2000)}, {K: "marsh", S: pat(0)}, {K: "marsh", S: pat(2100)}, {K: "marsh", S: pat(7)}}}})
+	cs = append(cs, Case{Label: "marshaler-nested", T: &T{K: "map", Key: &T{K: "prim", P: "PString"}, E: mt},
+		V: &V{K: "map", M: [][2]*V{{{K: "bytes", S: pat(4070)}, {K: "marsh", S: pat(40)}}}}})
+	cs = append(cs, Case{Label: "marshaler-nested", T: &T{K: "slice", E: &T{K: "any"}},
+		V: &V{K: "list", L: []*V{{K: "any", T: str, X: &V{K: "bytes", S: pat(4060)}}, {K: "any", T: mt, X: &V{K: "marsh", S: pat(64)}},
+			{K: "any", T: bt2, X: &V{K: "marsh", S: pat(5000)}}, {K: "anynil"}}}})
+	cs = append(cs, Case{Label: "marshaler-nested", T: &T{K: "array", N: 2, E: lt}, V: &V{K: "list", L: []*V{late(2000, 30, 3), late(2000, 90, 0)}}})
 	// deep nesting
 	deep := &T{K: "prim", P: "PInt8"}
 	dv := &V{K: "int", I: -128}
